@@ -203,6 +203,24 @@ def build() -> Check:
           vals and all(v in ("config.serdes", "None") for v in vals) and "config.serdes" in vals,
           f"Callback.serdes is bound to {sorted(vals)}")
 
+    # a recorded success whose payload is '' / '0' / '[]' (a legal serialisation) is not "no payload": None may be delivered without
+    # deserialising only on a path that established the payload's absence
+    from sa.common import none_without_established_absence
+    n_succ = 0
+    for name_, ci_ in pm.executors.items():
+        if pm.executor_optype(ci_) == "WAIT":
+            continue
+        badn = []
+        for t in pm.run_cell(ci_, "SUCCEEDED", faults=False):
+            n_succ += 1
+            if user_events(t, "user"):
+                continue
+            if none_without_established_absence(t):
+                badn.append(("delivers None for a recorded success without having established that no payload was recorded ("
+                             + "; ".join("%s->%s" % kv for kv in t.pc if "result" in kv[0] or "payload" in kv[0]) + ")", t))
+        ck.ob("R2.none-only-when-no-payload", cls_construct(ci_), not badn, badn[0][0] if badn else "")
+    ck.floor("succeeded_cell_traces", n_succ, 8)
+
     # a context whose oversized result was replaced by a summary delivered its real result to the first run; on replay the recorded payload
     # (summary / nothing) may only be handed to user code once the path has established that the context is NOT in ReplayChildren mode
     child_ci = pm.executors.get("ChildOperationExecutor")
